@@ -55,6 +55,10 @@ FAILING = {
     'unresolved': (False, ';nolabel\n'),
     'overlap': (False, ';0\nsegment 0\n;0\n'),
     'lexing': (False, ';0 `\n'),
+    # source errors that surface LATE, inside the writer (a word that does not fit w=16 is only noticed by struct.pack,
+    # after the output file was opened): the one way a fault-free failing assembly reaches the output stage
+    'late_word': (False, '  ;0\n  ;1<<20\n'),
+    'late_wflip': (False, '  ;0\nx:\n  wflip 1<<20, 5\n'),
 }
 
 
@@ -89,8 +93,30 @@ def setup_worker():
         mon.use_tool_id(sigint.TOOL, 'verif-sigint')
     mon.register_callback(sigint.TOOL, mon.events.INSTRUCTION, _sig.on_instruction)
     from flipjump.utils import classes
-    for fn in (fjm_writer.Writer.write_to_file, fjm_writer.Writer._compress_data, functions.save_debugging_labels,
-               classes.PrintTimer.__enter__, classes.PrintTimer.__exit__):
+    # the code of the create-binary stage, found by name pattern and not by a fixed list (a refactoring that splits,
+    # renames or removes a private helper must not break the harness; a helper that is missed only means that no
+    # instruction-precise interrupt lands inside it - the interrupts at file-operation boundaries still do)
+    import types
+
+    def reachable(namespace, roots):
+        # the functions of one namespace that the roots mention by name, transitively (a poor man's call graph)
+        table = {n: f for n, f in vars(namespace).items() if isinstance(f, types.FunctionType)}
+        todo, seen = [r for r in roots if r in table], []
+        while todo:
+            n = todo.pop()
+            if n in seen:
+                continue
+            seen.append(n)
+            todo += [m for m in table[n].__code__.co_names if m in table and m not in seen]
+            for const in table[n].__code__.co_consts:          # nested functions / comprehensions
+                if isinstance(const, types.CodeType):
+                    todo += [m for m in const.co_names if m in table and m not in seen]
+        return [table[n] for n in seen]
+    fns = reachable(fjm_writer.Writer, ['write_to_file']) + reachable(functions, ['save_debugging_labels'])
+    timer = getattr(classes, 'PrintTimer', None)
+    fns += [f for f in (getattr(timer, '__enter__', None), getattr(timer, '__exit__', None))
+            if isinstance(f, types.FunctionType)]
+    for fn in fns:
         mon.set_local_events(sigint.TOOL, fn.__code__, mon.events.INSTRUCTION)
     _sig.arm(-1)
 
@@ -183,7 +209,8 @@ def gen(rng, index, tier):
                                                                           'from-the-start'])}
     if index % 10 == 9:
         name = rng.choice(sorted(FAILING))
-        return {'program': name, 'failing': True, 'w': rng.choice([16, 32, 64]), 'version': rng.choice([0, 1, 2, 3]),
+        return {'program': name, 'failing': True, 'w': 16 if name.startswith('late_') else rng.choice([16, 32, 64]),
+                'version': rng.choice([0, 1, 2, 3]),
                 'debug': rng.random() < 0.5, 'preexisting': rng.random() < 0.5, 'seed': rng.getrandbits(32)}
     name = rng.choice(sorted(PROGRAMS))
     stl = PROGRAMS[name][0]
